@@ -9,6 +9,8 @@ package mcp
 import (
 	"encoding/json"
 	"fmt"
+	"math"
+	"strconv"
 
 	"trpc.group/trpc-go/trpc-mcp-go/internal/errors"
 )
@@ -144,6 +146,23 @@ func NewJSONRPCNotificationFromMap(method string, params map[string]interface{})
 
 // RequestId is the base request id struct for all MCP requests.
 type RequestId interface{}
+
+// requestIDKey renders a JSON-RPC id as the string under which a pending call is registered and
+// looked up. An id generated locally is an int64 while the same id decoded from JSON is a float64,
+// and fmt's %v prints float64(1000000) as "1e+06": integral floats are therefore rendered like
+// integers, so that both sides of a match agree for every id up to 2^53.
+func requestIDKey(id interface{}) string {
+	switch v := id.(type) {
+	case float64:
+		if v == math.Trunc(v) && math.Abs(v) < 1<<63 {
+			return strconv.FormatInt(int64(v), 10)
+		}
+		return strconv.FormatFloat(v, 'g', -1, 64)
+	case json.Number:
+		return v.String()
+	}
+	return fmt.Sprintf("%v", id)
+}
 
 // JSONRPCMessageType represents the type of a JSON-RPC message
 type JSONRPCMessageType string
